@@ -3,7 +3,7 @@
 use crate::encodings::{pk_decode, pk_encode, sig_decode, sig_encode, sk_decode, w1_encode};
 use crate::hashing::{expand_a, expand_mask, expand_s, h256_xof, sample_in_ball};
 use crate::helpers::{
-    add_vector_ntt, center_mod, full_reduce32, infinity_norm, mat_vec_mul, mont_reduce,
+    add_vector_ntt, center_mod, ensure, full_reduce32, infinity_norm, mat_vec_mul, mont_reduce,
     partial_reduce32, to_mont,
 };
 use crate::high_low::{high_bits, low_bits, make_hint, power2round, use_hint};
@@ -161,7 +161,7 @@ pub(crate) fn sign_internal<
 >(
     beta: i32, gamma1: i32, gamma2: i32, omega: i32, tau: i32, esk: &PrivateKey<K, L>,
     message: &[u8], ctx: &[u8], oid: &[u8], phm: &[u8], rnd: [u8; 32], nist: bool,
-) -> [u8; SIG_LEN] {
+) -> Result<[u8; SIG_LEN], &'static str> {
     //
     // 1: (ρ, K, tr, s_1, s_2, t_0) ← skDecode(sk)
     // --> calculated in `expand_private()` near the bottom of this file
@@ -202,6 +202,7 @@ pub(crate) fn sign_internal<
 
     // 8: κ ← 0    ▷ Initialize counter κ
     let mut kappa_ctr = 0u16;
+    let ell = u16::try_from(L).expect("cannot fail; L is static parameter");
 
     // 9: (z, h) ← ⊥    ▷ we will handle ⊥ inline with 'continue'
     let mut z: [R; L];
@@ -211,6 +212,11 @@ pub(crate) fn sign_internal<
     // 10: while (z, h) = ⊥ do    ▷ Rejection sampling loop (with continue for ⊥)
     loop {
         //
+        // ExpandMask consumes the 16-bit counters κ .. κ+ℓ−1. A private key that deserialization
+        // accepts need not be honestly generated and can reject (nearly) every candidate; per
+        // FIPS 204 Appendix C the loop may be bounded, so report an error rather than wrap around.
+        ensure!(kappa_ctr <= u16::MAX - (ell - 1), "ML-DSA.Sign_internal: too many rejections");
+
         // 11: y ← ExpandMask(ρ′', κ)
         let y: [R; L] = expand_mask(gamma1, &rho_prime, kappa_ctr);
 
@@ -278,7 +284,7 @@ pub(crate) fn sign_internal<
         let r0_norm = infinity_norm(&r0);
         // CTEST is used only for constant-time measurements via `dudect`
         if !CTEST && ((z_norm >= (gamma1 - beta)) || (r0_norm >= (gamma2 - beta))) {
-            kappa_ctr += u16::try_from(L).expect("cannot fail; L is static parameter");
+            kappa_ctr = kappa_ctr.saturating_add(ell);
             continue;
             //
             // 24: else  ... not needed with 'continue'
@@ -313,7 +319,7 @@ pub(crate) fn sign_internal<
             && ((infinity_norm(&c_t_0) >= gamma2)
                 || (h.iter().map(|h_i| h_i.0.iter().sum::<i32>()).sum::<i32>() > omega))
         {
-            kappa_ctr += u16::try_from(L).expect("cannot fail; L is static parameter");
+            kappa_ctr = kappa_ctr.saturating_add(ell);
             continue;
             // 29: end if
         }
@@ -333,7 +339,7 @@ pub(crate) fn sign_internal<
     // 34: return σ
     let zmodq: [R; L] =
         core::array::from_fn(|l| R(core::array::from_fn(|n| center_mod(z[l].0[n]))));
-    sig_encode::<CTEST, K, L, LAMBDA_DIV4, SIG_LEN>(gamma1, omega, &c_tilde, &zmodq, &h)
+    Ok(sig_encode::<CTEST, K, L, LAMBDA_DIV4, SIG_LEN>(gamma1, omega, &c_tilde, &zmodq, &h))
 }
 
 
